@@ -36,7 +36,7 @@ def replay(ctx, data):
 def run(ctx):
     ctx.rule = ("random BlackbirdProgram objects built through the API: Python and NumPy ints/floats/complex "
                 "(special pool: +-0.0, 5e-324, 2.2e-308, 1e+-300, 1e16, int64 bounds, 2**70), bools, quote-free "
-                "strings, lists of these in keyword position and in options, 2-D int/float/complex arrays up to "
+                "strings, lists of these in keyword position and in options, 2-D int/float/complex arrays (C order, Fortran order, transposed and strided views) up to "
                 "4x4, real SymPy expressions in named parameters, operations with and without arguments, NumPy "
                 "mode numbers; oracle: loads(dumps(p)) succeeds and equals p exactly (numbers ==, arrays element "
                 "by element, symbolic values semantically); model serialiser vs real dumps text; excluded (no "
@@ -60,3 +60,4 @@ def run(ctx):
         else:
             progs.append(apigen.build(spec))
     c01.dumps_corr(ctx, progs)
+    c01.unparse_corr(ctx, progs)
